@@ -211,8 +211,12 @@ class ModuleInfo(object):
                         self._index_toplevel(s2)
 
 
+CURRENT_MODEL = [None]     # the model being analysed (lets the summary engine resolve helpers of the package)
+
+
 class Model(object):
     def __init__(self, repo, package='mystic'):
+        CURRENT_MODEL[0] = self
         self.repo = os.path.abspath(repo)
         self.package = package
         self.modules = {}
